@@ -104,8 +104,9 @@ def trade_accounting(tr, market, phase):
             trades = by_ctx.get(lookup, {})
             tr.counters["rule_recount"] += 1
             placed = {tid: t for tid, (t, os_) in trades.items() if id(t) in tr.placed_trades}
-            if any(t.pending_orders for t in placed.values()):
-                continue
+            own_exc = getattr(tr, "own_exception_trades", ())
+            if any(t.pending_orders or tr.tkey(t) in own_exc for t in placed.values()):
+                continue  # (a `with trade:` block of the strategy that raised leaves its trade PENDING by design)
             live = [t for tid, (t, os_) in trades.items() if id(t) in tr.placed_trades and any(not o.complete for o in t.orders if o.status is not None)]
             causes = "+".join(sorted({O.cause_of(tr.tags, tr.okey(o)) for tid, (t, os_) in trades.items() for o in os_} - {"-"})) or "-"
             if ctx.live_trade_count != len(live):
